@@ -990,7 +990,7 @@ pub fn all() -> Vec<Box<dyn Check>> {
         level: "exploration",
         rule: "the request kept by the harness is compared structurally with the independent decoding of the bytes that operation put on the wire (CONNECT incl. will/auth/keep-alive/expiry/limits, PUBLISH, SUBSCRIBE, UNSUBSCRIBE, DISCONNECT); refused requests must leave nothing on the wire or in the arena. Workloads: scripted boundary cases (13 will x auth x QoS x retain configurations, keep-alive/expiry extremes, remaining lengths 126..129, 16382..16385, 2097150..2097153, property strings of 0/1/127/128/65535 bytes, all 36 subscription-option combinations, transmit arenas from 0 to just enough, 65536-byte fields, lying/failing payload closures) plus random programs. Non-trivial iff a packet with properties / will / auth / at a remaining-length boundary was compared or a request was refused.",
         assumptions: COMMON_ASSUME.to_vec(),
-        workloads: vec![("boundaries", 3000, 1_200_000, Source::Script(crate::scripts::c09_script)), ("general", 2000, 1_000_000, Source::Gen(general)), ("ping-between-pieces", 300, 30_000, Source::Script(crate::scripts::ping_between_pieces_script)), ("partial-then-disconnect", 300, 30_000, Source::Script(crate::scripts::c11_script))],
+        workloads: vec![("boundaries", 3000, 1_200_000, Source::Script(crate::scripts::c09_script)), ("general", 2000, 1_000_000, Source::Gen(general)), ("ping-between-pieces", 300, 30_000, Source::Script(crate::scripts::ping_between_pieces_script)), ("partial-then-disconnect", 300, 30_000, Source::Script(crate::scripts::c11_script)), ("inbound-qos2-full", 300, 30_000, Source::Gen(inbound_qos2_full))],
         monitor: m::c09::check,
         max_steps: 60,
         epilogue_polls: 0,
